@@ -658,6 +658,52 @@ def gen_hscript(r, tier):
     return steps
 
 
+def gen_dfs_hscript(r, tier):
+    """A program that follows the exploration discipline of SEVM.run (Model sched_step): on
+    every solver object one running path appends and forks, the most recent waiting fork is
+    activated when the running path is done; finished / running paths are sliced and
+    extended into new explorations (new solver objects), several times from the same state."""
+    n = r.randint(4, 12 if tier == "quick" else 24)
+    solver_of, current, waiting, sliced = [0], [0], [[]], {0: False}
+    steps, prev = [], []
+    for _ in range(n):
+        s = r.randrange(len(current)) if r.random() < 0.5 else len(current) - 1
+        i = current[s]
+        k = r.random()
+        if k < 0.4:
+            c = gen_bool(r, r.randint(0, 2), prev)
+            prev.append(c)
+            steps.append(["append", i, c, r.random() < 0.3])
+        elif k < 0.6:
+            c = gen_bool(r, r.randint(0, 2), prev)
+            prev.append(c)
+            steps.append(["branch", i, c])
+            new = len(solver_of)
+            solver_of.append(s)
+            sliced[new] = False
+            waiting[s].insert(0, new)
+            if r.random() < 0.7:  # the parent takes the other side
+                steps.append(["append", i, ["bnot", c], True])
+        elif k < 0.78 and waiting[s]:
+            j = waiting[s].pop(0)
+            steps.append(["activate", j])
+            current[s] = j
+        else:
+            active = [j for j in range(len(solver_of)) if not any(j in w for w in waiting)]
+            j = r.choice(active)
+            if not sliced[j] and r.random() < 0.5:
+                steps.append(["slice", j, r.sample(VARS + ["st", "bal", "k"], r.randint(0, 3))])
+                sliced[j] = True
+            for _ in range(r.randint(1, 2)):
+                steps.append(["extend", j])
+                new = len(solver_of)
+                solver_of.append(len(current))
+                sliced[new] = False
+                current.append(new)
+                waiting.append([])
+    return steps
+
+
 def _c(op, a, b):
     return [op, ["var", a], ["const", b]]
 
@@ -1104,7 +1150,7 @@ def run(rep, tier):
 
     # ---- X-heap: programs over several Path objects
     nh = 160 if tier == "quick" else 2500
-    hscripts = list(HCORPUS) + [gen_hscript(r, tier) for _ in range(nh)]
+    hscripts = list(HCORPUS) + [gen_hscript(r, tier) if k % 2 else gen_dfs_hscript(r, tier) for k in range(nh)]
     if tier == "quick":
         himpl = [impl_hscript(sc) for sc in hscripts]
     else:
@@ -1123,6 +1169,8 @@ def run(rep, tier):
             for cs in (0, 1):
                 calls.append(("c11_heap", [cs] + flat + o["ops"]))
             calls.append(("c11_lineage_spec", [0] + flat + o["ops"]))
+            calls.append(("c11_sched", [0] + flat + o["ops"]))
+            calls.append(("c11_lineage_solver", [0] + flat + o["ops"]))
         hres = m.parallel_batch(calls)
     mark("hscripts_model")
     nobjects = 0
@@ -1132,7 +1180,7 @@ def run(rep, tier):
             rep.count("hscript_kind", kd)
         case = {"hscript": script}
         rep.case(case, nontrivial=bool(set(kinds) & {"several_children_of_one_state", "sibling_after_append", "fork"}))
-        mo = [parse_model_heap(hres[3 * k]), parse_model_heap(hres[3 * k + 1])] if hres is not None else None
+        mo = [parse_model_heap(hres[5 * k]), parse_model_heap(hres[5 * k + 1])] if hres is not None else None
         if o["error"]:
             if mo is not None and not (mo[0] and mo[0]["error"]):
                 fail("broken-tie", f"implementation raised {o['error']} but the object-level model ran on {script}", case)
@@ -1164,9 +1212,24 @@ def run(rep, tier):
                          dict(case, object=j, cache_solver=cs, kind=kind, detail=detail), sig={"what": "object-" + kind})
         if mo is None:
             continue
-        ml = parse_model_lineage(hres[3 * k + 2])
+        ml = parse_model_lineage(hres[5 * k + 2])
         if ml != o["spec_conds"]:
             fail("broken-tie", f"python rendering of the lineage constraints {o['spec_conds']} differs from add_all/accumulated/lineages of the Coq development {ml} on {script}", case)
+        # C11_solver_mirrors_running_path on the real objects: when the program follows the
+        # exploration discipline, the z3 solver a path is running on holds the pure model's
+        # solver view of that path's lineage
+        sch = hres[5 * k + 3]
+        if sch and sch[0] == 1:
+            rep.count("hscript_kind", "follows_exploration_discipline")
+            it = iter(hres[5 * k + 4] or [0])
+            pure = []
+            for _ in range(next(it)):
+                st_, n_ = next(it), next(it)
+                pure.append(sorted(next(it) for _ in range(n_)) if st_ else None)
+            for sref, i in enumerate(sch[2:2 + sch[1]]):
+                if i < len(o["paths"]) and i < len(pure) and pure[i] != o["paths"][i]["solver"]:
+                    fail("broken-tie", f"solver object {sref}, running Path object {i}: z3 holds {o['paths'][i]['solver']}, the pure model's solver view along the lineage is {pure[i]} on disciplined program {script}",
+                         dict(case, object=i, implementation=o["paths"][i]["solver"], model=pure[i]))
         for ci, cs in enumerate(("False", "True")):
             mm_ = mo[ci]
             if mm_ is None or mm_["error"]:
